@@ -7,8 +7,8 @@
     [go_sized shards] says that every member list has fewer than 2^63 entries (Go's [len] is an
     [int]); it is not a bound on the inputs that can occur. *)
 From stdpp Require Import gmap.
-From Drummer.Model Require Import Base DB Launch LaunchRun.
-From Drummer.Proofs Require Import LaunchProofs.
+From Drummer.Model Require Import Base DB Launch LaunchRun LaunchNames.
+From Drummer.Proofs Require Import LaunchProofs LaunchNamesProofs.
 Local Open Scope N_scope.
 
 (** 1. Never a crash: no nil dereference, no index out of range ([regions.Count[idx]],
@@ -134,6 +134,28 @@ Theorem C08_validated_refuse_iff : forall ttl tick fleet shards r ds,
    exists sd, In sd shards /\ unplaceable ttl tick fleet r sd).
 Proof. exact validated_refuse_iff. Qed.
 Print Assumptions C08_validated_refuse_iff.
+
+(** 16. Region names are opaque tokens.  The whole outcome of a launch - the plan, request by request, or the
+       refusal - is unchanged by every re-spelling [f] of the region names (applied to the specification and to
+       what the NodeHosts report) that keeps the names that occur apart.  So no name has a meaning of its own at
+       launch (not "UNKNOWN" = settings.Soft.UnknownRegionName, not the empty name), and two names are the same
+       region only if they are the same string: with C08_valid / C08_refuse_iff, quotas are met per exact name
+       and hosts reporting a name that differs in case, blanks or normalisation form do not count. *)
+Theorem C08_region_names_opaque : forall f ttl tick fleet shards regs ds,
+  keeps_apart f (names_of fleet regs) ->
+  launch ttl tick (map (rename_host f) fleet) shards (option_map (rename_spec f) regs) ds =
+  launch ttl tick fleet shards regs ds.
+Proof. exact launch_names_opaque. Qed.
+Print Assumptions C08_region_names_opaque.
+
+(** 17. The same for server.validateRegions (SetRegions), as long as the re-spelling neither produces nor removes
+        the empty name (the one name validateRegions looks at). *)
+Theorem C08_validate_regions_names_opaque : forall f regs,
+  keeps_apart f (names_of [] regs) ->
+  (forall x, In x (names_of [] regs) -> (f x = 0 <-> x = 0)) ->
+  validate_regions (option_map (rename_spec f) regs) = validate_regions regs.
+Proof. exact validate_regions_names_opaque. Qed.
+Print Assumptions C08_validate_regions_names_opaque.
 
 (** * Non-vacuity *)
 
@@ -298,4 +320,35 @@ Example ex_plog_ignored :
   launch 60 100 [mkHp 3 3 100 [] [(8, 31)]; mkHp 4 3 100 [] [(8, 32); (7, 31)]] [mkSD 8 [31; 32] 9]
          (Some (mkRegions [3] [2])) [0; 1] =
   Plan [rq 8 [31; 32] [3; 4] 31 3; rq 8 [31; 32] [3; 4] 32 4].
+Proof. vm_compute. reflexivity. Qed.
+
+(** region names as opaque tokens: 107 stands for "UNKNOWN", 101 / 201 for "east" / "EAST", 102 for "west".
+    A quota for "UNKNOWN" is not filled from other regions: one host short -> refused, however many others there are *)
+Example ex_reserved_name_short :
+  launch 60 100 [H 1 107 100 []; H 2 102 100 []; H 3 102 100 []; H 4 101 100 []] [mkSD 8 [31; 32; 33] 9]
+         (Some (mkRegions [107; 102] [2; 1])) [0; 1; 2; 3] = Refused.
+Proof. vm_compute. reflexivity. Qed.
+
+(** "east" and "EAST" are two regions: both quotas are served, each by the host reporting exactly that name ... *)
+Example ex_case_variants_apart :
+  launch 60 100 [H 1 101 100 []; H 2 201 100 []; H 3 102 100 []] [mkSD 8 [31; 32; 33] 9]
+         (Some (mkRegions [201; 101; 102] [1; 1; 1])) [0; 0; 0] =
+  Plan [rq 8 [31; 32; 33] [2; 1; 3] 31 2; rq 8 [31; 32; 33] [2; 1; 3] 32 1; rq 8 [31; 32; 33] [2; 1; 3] 33 3].
+Proof. vm_compute. reflexivity. Qed.
+
+(** ... and a host reporting "EAST" does not count for a quota of "east" *)
+Example ex_case_variant_host_not_counted :
+  launch 60 100 [H 1 101 100 []; H 2 201 100 []; H 3 102 100 []] [mkSD 8 [31; 32; 33] 9]
+         (Some (mkRegions [101; 102] [2; 1])) [0; 1; 0] = Refused.
+Proof. vm_compute. reflexivity. Qed.
+
+(** the hypothesis of C08_region_names_opaque is satisfiable (a shift) and needed: a re-spelling that merges "EAST" into
+    "east" (case folding) turns the plan of ex_case_variants_apart into a refusal (duplicated region) *)
+Definition ex_fold (x : N) : N := if x =? 201 then 101 else x.
+Example ex_keeps_apart :
+  keeps_apart (fun x => x + 1000) (names_of [H 1 101 100 []; H 2 201 100 []] (Some (mkRegions [201; 101; 102] [1; 1; 1]))).
+Proof. intros x y _ _ Hxy. apply (N.add_cancel_r x y 1000). exact Hxy. Qed.
+Example ex_folding_is_not_a_respelling :
+  launch 60 100 (map (rename_host ex_fold) [H 1 101 100 []; H 2 201 100 []; H 3 102 100 []]) [mkSD 8 [31; 32; 33] 9]
+         (option_map (rename_spec ex_fold) (Some (mkRegions [201; 101; 102] [1; 1; 1]))) [0; 0; 0] = Refused.
 Proof. vm_compute. reflexivity. Qed.
